@@ -15,7 +15,7 @@ from .par_common import V
 
 PROP = "C15"
 LEVEL = "exploration"
-TIMEOUT_S = 180.0
+TIMEOUT_S = 600.0
 RULE = ("one run = simulated machine (os.cpu_count incl. None, affinity mask, LOKY_MAX_CPU_COUNT, cgroup v1/v2 quota) "
         "x n_jobs in [-2c-1, 2c+1] x backend flavour (T, M, L, G) x task-duration pattern x nesting shape up to depth 3 "
         "(default or explicit inner backends) x seeded schedule; distinct = digest of (thread role, event kind) "
